@@ -288,6 +288,17 @@ pub fn run(ctx: &Ctx) -> EvidenceMeta {
         }
     }
     ctx.enumerate("size-boundary", &items, test);
+    // every aligned body size up to 8 KiB through the builder, sealed in the common ways
+    let mut sizes = vec![];
+    for body in (8u32..=8200).step_by(4) {
+        for (mi, sha256, fp) in [(false, false, true), (true, false, true), (true, true, false)] {
+            if (mi || sha256) && body < 80 {
+                continue;
+            }
+            sizes.push(Case(gen::sized_spec(body, gen::Seal { mi, sha256, fp }, (body / 4 % 4) as u8)));
+        }
+    }
+    ctx.enumerate("size-sweep", &sizes, test);
     EvidenceMeta {
         rule: "builder programs: class x method (0..=0xfff, boundary patterns) x 96-bit id patterns x up to 8 distinct-typed attributes \
                from the 16 non-tail built-ins (constructor-accepted values weighted to limits and padding residues), raw unknown types and \
